@@ -47,15 +47,23 @@ def run_wrapper(data, script, calls, encoding=0, bufsize=4096):
     try:
         w = SocketWrapper(sock, encoding=encoding, bufsize=bufsize)
         for c in calls:
-            if c[0] == "read":
-                events.append(ev0("call", op="read", n=int(c[1])))
-                out = w.read(c[1])
-                events.append(ev0("ret", op="read", data=list(out), buffer=list(w.buffer)))
-            else:
-                events.append(ev0("call", op="readline"))
-                out = w.readline()
-                done = out[-2:] == b"\r\n"
-                events.append(ev0("retdone" if done else "ret", op="readline", data=list(out), buffer=list(w.buffer)))
+            try:
+                if c[0] == "read":
+                    events.append(ev0("call", op="read", n=int(c[1])))
+                    out = w.read(c[1])
+                    events.append(ev0("ret", op="read", data=list(out), buffer=list(w.buffer)))
+                else:
+                    events.append(ev0("call", op="readline"))
+                    out = w.readline()
+                    done = out[-2:] == b"\r\n"
+                    events.append(ev0("retdone" if done else "ret", op="readline", data=list(out), buffer=list(w.buffer)))
+            except BaseException as err:  # pylint: disable=broad-except
+                if isinstance(err, (KeyboardInterrupt, SystemExit, MemoryError, common.Watchdog)):
+                    raise
+                # the wrapper never raises out of read()/readline(): an event no spec action explains
+                events.append(ev0("exception", op=type(err).__name__))
+                results.append(b"<exception " + type(err).__name__.encode() + b">")
+                break
             results.append(bytes(out))
             if w.in_waiting() != len(w.buffer):
                 events.append(ev0("bad-in_waiting"))
